@@ -25,9 +25,18 @@ DOCTEST = [">>> compute(1)", "2", ">>> compute(2)"]
 TOKENS = (":param", ":type", ":return", ":rtype", ":cvar", "Args:", "Returns:", "Parameters", "----------", "-------", "Raises:")
 
 
-def lines_of(shape, pool_offset):
+KEYWORD_PROSE = ["Raises the alarm as soon as a value is out of range", "Returns nothing useful when the input is empty",
+                 "Args are forwarded verbatim to the backend", "Kwargs given here win over the configuration file",
+                 "Parameters of the model are left untouched"]
+
+
+def lines_of(shape, pool_offset, kw=0):
     out, t, d = [], 0, 0
     for k in shape:
+        if k == "K":
+            out.append(KEYWORD_PROSE[(kw + t + pool_offset) % len(KEYWORD_PROSE)])      # every keyword in every position: `kw` is swept
+            t += 1
+            continue
         if k == "T":
             out.append(TEXT[(t + pool_offset) % len(TEXT)])
             t += 1
@@ -47,6 +56,7 @@ def lines_of(shape, pool_offset):
 def build(case, variant):
     import cdd.docstring.emit
 
+    kw, variant = variant, variant % 2
     params = OrderedDict((("alpha", {"typ": "int", "doc": "the alpha", "default": 5}),)) if variant == 0 else \
         OrderedDict((("dataset_name", {"typ": "str", "doc": "name of the dataset", "default": "mnist"}),
                      ("as_numpy", {"typ": "Optional[bool]", "doc": "convert to numpy"})))
@@ -54,8 +64,8 @@ def build(case, variant):
     ir = {"name": "f", "doc": "", "params": params if sect != "ret" else OrderedDict(),
           "returns": OrderedDict((("return_type", {"typ": "int", "doc": "the result"}),)) if sect != "params" else None}
     section = cdd.docstring.emit.docstring(copy.deepcopy(ir), docstring_format=case["from"], indent_level=0).strip("\n")
-    header = lines_of(case["h"], 0)
-    footer = lines_of(case["f"], 3)
+    header = lines_of(case["h"], 0, kw)
+    footer = lines_of(case["f"], 3, kw)
     body = header + [""] + section.split("\n") + footer
     pad = "    " * (case["indent"] + (1 if case.get("route") == "function" else 0))
     text = "\n" + "\n".join((pad + ln) if ln.strip() else ln for ln in body) + "\n" + pad
@@ -71,7 +81,7 @@ def function_parse(case, text, variant):
 
     import cdd.function.parse
 
-    sig = "" if case.get("sect") == "ret" else "alpha=5" if variant == 0 else 'dataset_name="mnist", as_numpy=None'
+    sig = "" if case.get("sect") == "ret" else "alpha=5" if variant % 2 == 0 else 'dataset_name="mnist", as_numpy=None'
     depth = case["indent"]
     pad = "    " * depth
     src = "".join("{}class C{}(object):\n".format("    " * k, k) for k in range(depth))
@@ -185,7 +195,7 @@ def _batch(items):
 def check(run, replay=None):
     from harness import conv
 
-    run.rule = ("case = (header shape: 8 multi-paragraph shapes with blank / indented / doctest / dashed-underline lines, footer shape: 5 incl. none, "
+    run.rule = ("case = (header shape: 11 multi-paragraph shapes with blank / indented / doctest / dashed-underline lines and prose lines that begin with a section keyword (each of 5 keywords in turn), footer shape: 6 incl. none, "
                 "source style, target style, indentation 0..2, route: docstring parse+emit or function parse+emit) x 2 parameter sets; the section is produced by the real emitter; distinct = "
                 "distinct (case, parameter set)")
     run.tlc("DocSplit", "MC_DocSplit.cfg", workers=4, timeout=600)
@@ -199,7 +209,8 @@ def check(run, replay=None):
             want = json.load(f)["case"]["case"]
         cases = [c for c in cases if all(c.get(k) == want.get(k, c.get(k)) for k in ("h", "f", "from", "to", "indent", "route", "sect", "first"))]
     run.exhaustive = True
-    items = [(c, v) for c in cases for v in (0, 1)]
+    # (a shape with a keyword-prose line is run once per keyword: the variant number selects it)
+    items = [(c, v) for c in cases for v in (range(len(KEYWORD_PROSE)) if "K" in c["h"] or "K" in c["f"] else (0, 1))]
     tri = {}
     for rb in pmap(_batch, [items[k:k + 32] for k in range(0, len(items), 32)], chunksize=1):
         for res in rb:
